@@ -75,7 +75,7 @@ type opRec struct {
 func TestC20Policies(t *testing.T) {
 	e := vrun.LoadEnv()
 	meta := vrun.Meta{Property: "C20", Workload: "TestC20Policies", Total: e.Pick(300, 40000),
-		Rule: "each case draws a policy (none / size with threshold 0,1,64,1000 / immediate), 1-4 writers, 0-3 extra flusher goroutines, 8-47 operations per writer (Write of 0-4 points with payload sizes straddling the threshold, zero-length payloads, 1-5 data ids; Flush with contexts cancelled in 20% of some cases), optional State() sampler. Oracles: barrier (points of writes that returned before a nil Flush was called sit in chunks numbered <= the last issued number read right after the Flush; visible buffer empty after a quiescent Flush), policy 'none' transmits nothing before the first Flush/Close, single-writer histories: chunk boundaries equal a sequential reference model of the buffer, multi-writer: every over-threshold chunk must drop to <= threshold when one of its writes is removed and no write is split, immediate: one write per chunk, State(): sent+buffered <= points of writes started, == accepted after a quiescent Flush, no chunk without a data point group. non-trivial = >=3 chunks and >=1 nil Flush; distinct = scenario tuple x boundary signature",
+		Rule: "each case draws a policy (none / size with threshold 0,1,64,1000 / immediate), 1-4 writers, 0-3 extra flusher goroutines, 8-47 operations per writer (Write of 0-4 points with payload sizes straddling the threshold, zero-length payloads, 1-5 data ids; Flush and Write with contexts cancelled in 20% of some cases), optional State() sampler. Oracles: barrier (points of writes that returned before a nil Flush was called sit in chunks numbered <= the last issued number read right after the Flush; visible buffer empty after a quiescent Flush), policy 'none' transmits nothing before the first Flush/Close, single-writer histories: chunk boundaries equal a sequential reference model of the buffer, multi-writer: every over-threshold chunk must drop to <= threshold when one of its writes is removed and no write is split, immediate: one write per chunk, State(): sent+buffered <= points of writes started, == accepted after a quiescent Flush, no chunk without a data point group. non-trivial = >=3 chunks and >=1 nil Flush; distinct = scenario tuple x boundary signature",
 		Assumptions: []string{"'cut into a chunk with sequence number at most the last issued one' is observed as: the broker received the point in a chunk whose number is <= State().LastIssuedSequenceNumber read immediately after Flush returned (a later read can only be larger, so the check is sound)",
 			"the size-policy boundary model uses the sum of payload lengths, as documented for IsFlush"}}
 	vrun.Loop(t, meta, 0, func(c *vrun.Case) vrun.Result {
@@ -234,7 +234,20 @@ func runCase(c *vrun.Case, s scenario) vrun.Result {
 					o := &opRec{Kind: "write", Sizes: sz}
 					started.Add(int64(n))
 					o.Call = w.Clock.Tick()
-					err := rec.Write(ctx, up, wi+1, pool[r.Intn(len(pool))], cs, sz)
+					wctx := ctx
+					if s.CancelPct > 0 && r.Intn(100) < s.CancelPct {
+						// the writer's context is already cancelled, or ends while the call waits for the flush loop: the call
+						// either accepts the points (nil) or it does not (error) - an error must not leave them in the stream
+						var wcancel context.CancelFunc
+						wctx, wcancel = context.WithCancel(ctx)
+						if r.Intn(2) == 0 {
+							wcancel()
+						} else {
+							go func() { wcancel() }()
+						}
+						defer wcancel()
+					}
+					err := rec.Write(wctx, up, wi+1, pool[r.Intn(len(pool))], cs, sz)
 					o.Return = w.Clock.Tick()
 					if err != nil {
 						o.Err = err.Error()
